@@ -4,6 +4,9 @@ package main
 
 import (
 	"bufio"
+	"bytes"
+	"io"
+	"os/exec"
 	"encoding/json"
 	"flag"
 	"fmt"
@@ -18,6 +21,7 @@ import (
 	"github.com/cloudwego/thriftgo/generator"
 	"github.com/cloudwego/thriftgo/generator/backend"
 	"github.com/cloudwego/thriftgo/plugin"
+	"github.com/cloudwego/thriftgo/utils/dir_utils"
 
 	"verifharness/internal/vl"
 )
@@ -135,10 +139,10 @@ func goSource(k int) string {
 
 // realCfg turns a configuration into one for the real Go backend: *.go paths, Go sources as contents.
 func realCfg(c cfgT) cfgT {
-	d := cfgT{Conc: c.Conc, HasPP: true, RealPP: true}
+	d := cfgT{Conc: c.Conc, HasPP: true, RealPP: true, GlobalWd: c.GlobalWd, PrevViaPersist: c.PrevViaPersist}
 	for k, j := range c.Jobs {
 		f := j.Fail
-		d.Jobs = append(d.Jobs, job{Path: fmt.Sprintf("gen-go/p%d/f%d.go", k%3, k), Content: goSource(k), Fail: f, Prev: j.Prev})
+		d.Jobs = append(d.Jobs, job{Path: fmt.Sprintf("gen-go/p%d/f%d.go", k%3, k), Content: goSource(k), Fail: f, Prev: j.Prev, Rel: j.Rel})
 	}
 	return d
 }
@@ -309,6 +313,56 @@ func runInput(in input, wd time.Duration, tries int, rng *vl.Rng) (*outcome, []s
 	return o, bad
 }
 
+type oneResult struct {
+	Outcome *outcome `json:"outcome"`
+	Bad     []string `json:"bad"`
+}
+
+// runIsolated runs one input in a child process: a panic in a worker goroutine of the implementation
+// (e.g. "sync: negative WaitGroup counter") cannot be recovered and must not take the harness down.
+func runIsolated(in input, tries int) (*outcome, []string) {
+	js, _ := json.Marshal(in)
+	cmd := exec.Command(os.Args[0], "one", "-tries", strconv.Itoa(tries))
+	cmd.Stdin = bytes.NewReader(js)
+	var so, se bytes.Buffer
+	cmd.Stdout, cmd.Stderr = &so, &se
+	err := cmd.Run()
+	if err == nil {
+		var res oneResult
+		if e := json.Unmarshal(so.Bytes(), &res); e == nil && res.Outcome != nil {
+			return res.Outcome, res.Bad
+		}
+		panic("c19 one: unreadable result: " + so.String() + se.String())
+	}
+	msg := se.String()
+	if strings.Contains(msg, "panic:") || strings.Contains(msg, "fatal error:") {
+		first := msg
+		if i := strings.Index(msg, "panic:"); i >= 0 {
+			first = msg[i:]
+		}
+		if i := strings.Index(first, "\n"); i >= 0 {
+			first = first[:i]
+		}
+		return &outcome{Ret: "panic", Written: first, Releases: in.Schedule}, []string{"panic"}
+	}
+	panic("c19 one failed: " + msg)
+}
+
+func one(tries int) error {
+	b, err := io.ReadAll(os.Stdin)
+	if err != nil {
+		return err
+	}
+	var in input
+	if err := json.Unmarshal(b, &in); err != nil {
+		return err
+	}
+	o, bad := runInput(in, 400*time.Millisecond, tries, vl.NewRng(1))
+	js, _ := json.Marshal(oneResult{o, bad})
+	fmt.Println(string(js))
+	return nil
+}
+
 func contains(l []string, s string) bool {
 	for _, x := range l {
 		if x == s {
@@ -345,39 +399,45 @@ func (h *harness) fail(in input, bad []string, observed string) {
 		changed = false
 		var cands []cfgT
 		c := cur.Cfg
-		for k := len(c.Jobs) - 1; k >= 0; k-- { // drop job k (paths keep their identity)
-			d := cfgT{RealPP: c.RealPP, Conc: c.Conc, HasPP: c.HasPP, PrevViaPersist: c.PrevViaPersist}
-			d.Jobs = append(append([]job(nil), c.Jobs[:k]...), c.Jobs[k+1:]...)
+		with := func(f func(d *cfgT)) {
+			d := c
+			d.Jobs = append([]job(nil), c.Jobs...)
+			f(&d)
 			cands = append(cands, d)
 		}
+		for k := len(c.Jobs) - 1; k >= 0; k-- { // drop job k (paths keep their identity)
+			k := k
+			with(func(d *cfgT) { d.Jobs = append(d.Jobs[:k:k], d.Jobs[k+1:]...) })
+		}
 		for k := range c.Jobs {
+			k := k
 			if c.Jobs[k].Prev != "" {
-				d := cfgT{RealPP: c.RealPP, Conc: c.Conc, HasPP: c.HasPP, PrevViaPersist: c.PrevViaPersist, Jobs: append([]job(nil), c.Jobs...)}
-				d.Jobs[k].Prev = ""
-				cands = append(cands, d)
+				with(func(d *cfgT) { d.Jobs[k].Prev = "" })
+			}
+			if c.Jobs[k].Rel {
+				with(func(d *cfgT) { d.Jobs[k].Rel = false })
 			}
 		}
 		if c.PrevViaPersist {
-			cands = append(cands, cfgT{RealPP: c.RealPP, Conc: c.Conc, HasPP: c.HasPP, Jobs: c.Jobs})
+			with(func(d *cfgT) { d.PrevViaPersist = false })
+		}
+		if c.GlobalWd {
+			with(func(d *cfgT) { d.GlobalWd = false })
 		}
 		for k := range c.Jobs {
-			if c.Jobs[k].Fail != "o" {
-				d := cfgT{RealPP: c.RealPP, Conc: c.Conc, HasPP: c.HasPP, PrevViaPersist: c.PrevViaPersist, Jobs: append([]job(nil), c.Jobs...)}
-				d.Jobs[k].Fail = "o"
-				cands = append(cands, d)
-			} else {
+			k := k
+			if c.Jobs[k].Fail == "o" {
 				continue
 			}
+			with(func(d *cfgT) { d.Jobs[k].Fail = "o" })
 			if c.Jobs[k].Fail == "b" || c.Jobs[k].Fail == "p" {
-				d := cfgT{RealPP: c.RealPP, Conc: c.Conc, HasPP: c.HasPP, PrevViaPersist: c.PrevViaPersist, Jobs: append([]job(nil), c.Jobs...)}
-				d.Jobs[k].Fail = "w"
-				cands = append(cands, d)
+				with(func(d *cfgT) { d.Jobs[k].Fail = "w" })
 			}
 		}
 		if c.Conc != 1 {
-			cands = append(cands, cfgT{RealPP: c.RealPP, Conc: 1, HasPP: c.HasPP, PrevViaPersist: c.PrevViaPersist, Jobs: c.Jobs})
+			with(func(d *cfgT) { d.Conc = 1 })
 			if c.Conc > 2 {
-				cands = append(cands, cfgT{RealPP: c.RealPP, Conc: c.Conc - 1, HasPP: c.HasPP, PrevViaPersist: c.PrevViaPersist, Jobs: c.Jobs})
+				with(func(d *cfgT) { d.Conc = c.Conc - 1 })
 			}
 		}
 		for _, d := range cands {
@@ -428,6 +488,19 @@ func run(repo, dir string, seed uint64, tier, pathsFile string, batch, nbatch in
 			cfg, rest, err := parseCfgToks(t[2:])
 			if err != nil || len(rest) == 0 || rest[0] != "|" {
 				return fmt.Errorf("bad path line: %s", sc.Text())
+			}
+			if t[0] == "X" && strings.HasPrefix(t[1], "panic") {
+				// the LTS with this tree's skeleton reaches a negative WaitGroup counter: force that path in a child process
+				in := input{Cfg: cfg, Mode: "controlled", Schedule: rest[1:]}
+				o, bad := runIsolated(in, 1)
+				out.Count("class:model-violation-path:" + t[1] + "(isolated)")
+				out.Evals++
+				if contains(bad, "panic") {
+					h.out.Fail(vl.OracleFail{Key: "panic|controlled|" + cfg.toks(), What: "OnFinished: panic (" + o.Written + ")", Input: in,
+						Expected: "no panic: wg.Done() never drives the WaitGroup counter negative", Observed: "the process panics: " + o.Written})
+					h.stop = true // every further schedule may crash the harness
+				}
+				continue
 			}
 			o, bad := runControlled(cfg, rest[1:], mkChooser(7, rng), h.wd)
 			class := "model-path"
@@ -508,6 +581,18 @@ func run(repo, dir string, seed uint64, tier, pathsFile string, batch, nbatch in
 			}
 		}
 		out.Count("persist-history:" + hist)
+		// where the files go: SDK global working directory set / unset x absolute / relative names x nested directories
+		place := func(c *cfgT) {
+			c.GlobalWd = rng.Bool()
+			for k := range c.Jobs {
+				c.Jobs[k].Rel = rng.Bool()
+				if k%3 == 1 {
+					c.Jobs[k].Path = fmt.Sprintf("d%d/n1/n2/f%d", k%2, k)
+				}
+				out.Count(fmt.Sprintf("persist-name:global-wd=%v,relative=%v", c.GlobalWd, c.Jobs[k].Rel))
+			}
+		}
+		place(&cfg)
 		if i%5 == 1 {
 			big, _ := genCfg(rng, 150, maxK)
 			for k := range big.Jobs {
@@ -519,6 +604,7 @@ func run(repo, dir string, seed uint64, tier, pathsFile string, batch, nbatch in
 				}
 			}
 			big.PrevViaPersist = cfg.PrevViaPersist
+			place(&big)
 			cfg = realCfg(big)
 			cfg.Conc = runtime.GOMAXPROCS(0)
 			out.Count("persist:real-go-backend")
@@ -560,12 +646,12 @@ func (b *fakeBackend) PostProcess(path string, content []byte) ([]byte, error) {
 }
 
 // persistSetup registers a fault-injecting backend that "generates" the jobs and runs Generator.Generate.
-func persistSetup(full cfgT) (*generator.Generator, *plugin.Response, *runner) {
+func persistSetup(full cfgT, names []string) (*generator.Generator, *plugin.Response, *runner) {
 	r := newRunner(full)
 	r.free = true
 	be := &fakeBackend{r: r}
-	for _, j := range full.Jobs {
-		name := j.Path
+	for k, j := range full.Jobs {
+		name := names[k]
 		be.files = append(be.files, &plugin.Generated{Name: &name, Content: j.Content})
 	}
 	generator.VerifPoint = nil
@@ -587,21 +673,57 @@ func runPersist(cfg cfgT) (*outcome, []string) {
 		panic(err)
 	}
 	defer os.RemoveAll(root)
+	root, _ = filepath.EvalSymlinks(root)
+	// three disjoint roots: absolute output names live below out/, the SDK's global working directory is wd/,
+	// the process' own working directory is cwd/ (relative names resolve there when no global wd is set)
+	outRoot, wdRoot, cwdRoot := filepath.Join(root, "out"), filepath.Join(root, "wd"), filepath.Join(root, "cwd")
+	for _, d := range []string{outRoot, wdRoot, cwdRoot} {
+		os.MkdirAll(d, 0o755)
+	}
+	oldCwd, _ := os.Getwd()
+	if err := os.Chdir(cwdRoot); err != nil {
+		panic(err)
+	}
+	defer os.Chdir(oldCwd)
+	if cfg.GlobalWd {
+		dir_utils.SetGlobalwd(wdRoot)
+	}
+	defer dir_utils.SetGlobalwd("")
+	// names[k]: the file name in the response; full.Jobs[k].Path: the path Persist is documented to use for it
+	// (absolute names as they are; relative names below the global wd when one is set, i.e. Rel(cwd, wd)/name,
+	// otherwise relative to the process' working directory) - also what PostProcess and the write are called with
 	full := cfgT{Conc: cfg.Conc, HasPP: true, RealPP: cfg.RealPP}
+	var names []string
+	allowed := map[string]bool{} // every regular file that may exist below root afterwards (absolute)
 	for k, j := range cfg.Jobs {
-		p := filepath.Join(root, j.Path)
+		var name, p string
 		if j.Fail == "w" || j.Fail == "b" {
-			blocker := filepath.Join(root, fmt.Sprintf("blk%d", k))
+			blocker := filepath.Join(outRoot, fmt.Sprintf("blk%d", k))
 			os.WriteFile(blocker, []byte("x"), 0o644)
-			p = filepath.Join(blocker, "sub", fmt.Sprintf("f%d%s", k, filepath.Ext(j.Path)))
+			allowed[blocker] = true
+			name = filepath.Join(blocker, "sub", fmt.Sprintf("f%d%s", k, filepath.Ext(j.Path)))
+			p = name
+		} else if j.Rel {
+			name = filepath.Join("relout", j.Path)
+			p = name
+			if cfg.GlobalWd {
+				p = filepath.Join("..", "wd", name) // = filepath.Join(Rel(cwd, wd), name)
+			}
+		} else {
+			name = filepath.Join(outRoot, j.Path)
+			p = name
 		}
+		names = append(names, name)
 		full.Jobs = append(full.Jobs, job{Path: p, Content: j.Content, Fail: j.Fail, Prev: j.Prev})
+		abs, _ := filepath.Abs(p)
+		allowed[abs] = true
 	}
 	// previous generation: files of the same names that are longer / shorter / as long as the new bytes
 	prevDisk := map[int]string{}
 	{
 		pre := cfgT{Conc: cfg.Conc, HasPP: true, RealPP: cfg.RealPP}
 		var idx []int
+		var preNames []string
 		for k, j := range full.Jobs {
 			if j.Prev == "" || j.Fail == "w" || j.Fail == "b" {
 				continue
@@ -616,11 +738,12 @@ func runPersist(cfg cfgT) (*outcome, []string) {
 				old = strings.Repeat("z", len(j.Content))
 			}
 			pre.Jobs = append(pre.Jobs, job{Path: j.Path, Content: old, Fail: "o"})
+			preNames = append(preNames, names[k])
 			idx = append(idx, k)
 		}
 		if len(pre.Jobs) > 0 {
 			if cfg.PrevViaPersist {
-				g0, res0, _ := persistSetup(pre)
+				g0, res0, _ := persistSetup(pre, preNames)
 				if err := g0.Persist(res0); err != nil {
 					panic(fmt.Sprintf("pre-population through Persist failed: %v", err))
 				}
@@ -635,13 +758,17 @@ func runPersist(cfg cfgT) (*outcome, []string) {
 			for _, k := range idx {
 				b, err := os.ReadFile(full.Jobs[k].Path)
 				if err != nil {
+					if cfg.PrevViaPersist {
+						// the earlier Persist call returned nil but the file is not where it was asked for
+						return &outcome{Ret: "nil", Written: "previous generation: " + err.Error()}, []string{"nil-but-not-all-written"}
+					}
 					panic(err)
 				}
 				prevDisk[k] = string(b)
 			}
 		}
 	}
-	g, res, r := persistSetup(full)
+	g, res, r := persistSetup(full, names)
 	o := &outcome{}
 	done := make(chan error, 1)
 	go func() { done <- g.Persist(res) }()
@@ -728,7 +855,24 @@ func runPersist(cfg cfgT) (*outcome, []string) {
 			bad = append(bad, "double-write")
 		}
 	}
+	if len(r.unknownPath) > 0 {
+		bad = append(bad, "post-processed-under-a-foreign-path")
+	}
 	r.mu.Unlock()
+	// nothing may be written anywhere else: scan all three roots
+	var stray []string
+	filepath.Walk(root, func(p string, info os.FileInfo, err error) error {
+		if err == nil && info.Mode().IsRegular() && !allowed[p] {
+			rel, _ := filepath.Rel(root, p)
+			stray = append(stray, rel)
+		}
+		return nil
+	})
+	if len(stray) > 0 {
+		sort.Strings(stray)
+		bad = append(bad, "file-written-at-a-path-it-was-not-asked-for")
+		s1 += " stray=" + strings.Join(stray, ",")
+	}
 	o.Written = s1
 	return o, bad
 }
@@ -749,7 +893,13 @@ func replay(repo, file string) error {
 	dir, _ := os.MkdirTemp("", "c19replay")
 	defer os.RemoveAll(dir)
 	h := &harness{out: vl.NewOut(dir), rng: vl.NewRng(1), wd: 400 * time.Millisecond, classes: map[string]int{}}
-	o, bad := runInput(doc.Input, h.wd, 200, h.rng)
+	var o *outcome
+	var bad []string
+	if doc.Input.Mode == "controlled" {
+		o, bad = runIsolated(doc.Input, 200)
+	} else {
+		o, bad = runInput(doc.Input, h.wd, 200, h.rng)
+	}
 	var fails []vl.OracleFail
 	if len(bad) > 0 {
 		in := doc.Input
@@ -774,6 +924,7 @@ func main() {
 	paths := flag.String("paths", "", "model paths (tv_c19 gen / explore) to force on the implementation")
 	batch := flag.Int("batch", 0, "")
 	nbatch := flag.Int("nbatch", 1, "")
+	tries := flag.Int("tries", 1, "")
 	if len(os.Args) < 2 {
 		fmt.Fprintln(os.Stderr, "usage: c19 extract|run|replay [flags]")
 		os.Exit(3)
@@ -790,6 +941,8 @@ func main() {
 		err = run(*repo, *dir, *seed, *tier, *paths, *batch, *nbatch)
 	case "replay":
 		err = replay(*repo, *file)
+	case "one":
+		err = one(*tries)
 	default:
 		err = fmt.Errorf("usage: c19 extract|run|replay")
 	}
